@@ -7,13 +7,14 @@ from pyvc import smt
 
 ROOT = os.path.dirname(os.path.dirname(os.path.abspath(__file__)))
 STUB_TABLE = ("(define-fun subclass ((a Int)(b Int)) Bool false)\n(define-fun meta_of ((c Int)) Int 11)\n"
-              "(define-fun obj_truthy ((x V)) Bool true)\n")
+              "(define-fun obj_truthy ((x V)) Bool true)\n(define-fun not_subscriptable ((c Int)) Bool false)\n")
 
 LEMMA_FILES = {
     "JSON-ELEM": ["json_elem_seq_step", "json_elem_vals_step"],
     "RB": ["rb_scalar", "rb_seq_step", "rb_list", "rb_absent", "rb_dget_step", "rb_map_step", "rb_dict"],
     "DICT-ITEM": ["dict_distinct_step", "dict_item_step", "dict_wf_suffix_step", "dict_haskey_step"],
     "MEM-EX": ["mem_ex_step", "mem_ex_conv_step"],
+    "IS-MEM": ["ismem_empty", "ismem_unit", "ismem_concat", "ismem_nth", "ismem_prefix_step", "ismem_prefix_ends"],
     "RB-MEM": ["rb_mem_step"],
     "RB-DUP": ["rb_dup_step"],
 }
